@@ -103,6 +103,7 @@ static const char *last_callback = "none";
 
 static __thread const char *cb_stack[8]; /* application callbacks this thread is inside of (nesting: callback -> API -> callback) */
 static __thread int cb_depth;
+static __thread const char *last_lkd; /* the monitored (_lkd / dispatch) library function this thread entered last */
 
 /* called with smu held by the running thread; picks the next thread and hands over.
  * me_enabled: 0 = the caller cannot continue, 1 = it can (switching away is a preemption, cost 1),
@@ -189,7 +190,10 @@ pthread_mutex_lock(pthread_mutex_t *m) {
     /* non-recursive mutex locked again by its owner: this call never returns, the thread hangs holding the global lock */
     char sig[120], d[300];
     dump_threads(d, sizeof d);
-    snprintf(sig, sizeof sig, "self-deadlock:relock-inside-callback:%s", cb_depth ? cb_stack[cb_depth - 1] : "none");
+    if (cb_depth)
+      snprintf(sig, sizeof sig, "self-deadlock:relock-inside-callback:%s", cb_stack[cb_depth - 1]);
+    else /* library code that runs with the lock held calls a lock-taking public function */
+      snprintf(sig, sizeof sig, "self-deadlock:relock-outside-callback:after-entering:%s", last_lkd ? last_lkd : "none");
     vx_fail(sig, "thread %s calls pthread_mutex_lock() on the global lock it already owns (application callback it is inside of: %s, "
                  "in_callback=%u): the call can never return and every other thread blocks on its next API call; %s",
             T[my_id].name, cb_depth ? cb_stack[cb_depth - 1] : "none", IN_CALLBACK, d);
@@ -304,6 +308,7 @@ __cyg_profile_func_enter(void *fn, void *site) {
   while (lo <= hi) {
     int mid = (lo + hi) / 2;
     if (syms[mid].addr == a) {
+      last_lkd = syms[mid].name;
       if (lock_owner != my_id) {
         char sig[120];
         snprintf(sig, sizeof sig, "unlocked-entry:%s", syms[mid].name);
@@ -341,6 +346,7 @@ struct cfg {
 #define F_PERSIST 4 /* + observe persist tracking call-outs (coap_persist_track_funcs) registered after set-up */
 #define KEEPALIVE_S 2
 #define SLEEP_MS 2100 /* > keep-alive period and > idle timeout of the cache entry */
+#define POST_ADVANCE_MS 1500u /* < keep-alive period: virtual time that may pass once all API threads have finished */
 #define RAW_HOST 7
 #define RAWTCP_HOST 8
 enum {
@@ -359,6 +365,7 @@ static coap_session_t *cs, *dead, *rawc, *tcps;
 static ns_stream_t *tcp_stream;
 static coap_resource_t *res_r, *res_q;
 static coap_address_t srv, deadpeer, rawpeer, rawtcp;
+static uint64_t post_advanced;
 static int tearing_down; /* run() is releasing the objects the callbacks would re-enter with */
 static int ping_seen, pong_seen, callout_seen, reentry_returns, raw_rst_sent, raw_pong_sent;
 static int workers_done, setup_done;
@@ -822,7 +829,8 @@ io_fill(struct epoll_event *ev, int max) {
   int n = 0;
   for (int i = 0; i < ns_stream_count() && n < max - 1; i++) {
     ns_stream_t *st = ns_stream_get(i);
-    (void)ns_stream_raw_read(st, 1, NULL, (size_t)-1); /* the raw peer has consumed what was written to it (see raw_tcp_filter) */
+    if (!st->side[1].sock)
+      (void)ns_stream_raw_read(st, 1, NULL, (size_t)-1); /* the raw peer has consumed what was written to it (see raw_tcp_filter) */
     struct ns_stream_side *sd = &st->side[0];
     if (sd->sock && !sd->closed && sd->rx_avail > 0) {
       ev[n].events = EPOLLIN;
@@ -864,7 +872,15 @@ epoll_hook(int epfd, struct epoll_event *ev, int max, int timeout) {
     io_idle++;
     if (workers_done >= C->nworkers && timeout > 0) {
       /* nothing else can happen: let virtual time pass so that retransmission / give-up paths (NACK callback) run */
-      ns_advance((uint64_t)(timeout > 4000 ? 4000 : timeout));
+      uint64_t adv = (uint64_t)(timeout > 4000 ? 4000 : timeout);
+      if (C->flags & F_CBX) {
+        /* keep-alive is on in this family: what is due when the API threads have finished is still served, but the clock then stops
+         * short of the next period (otherwise the I/O thread would ping on, alone, until its iteration horizon) */
+        if (adv > POST_ADVANCE_MS - post_advanced)
+          adv = POST_ADVANCE_MS - post_advanced;
+        post_advanced += adv;
+      }
+      ns_advance(adv);
     }
   } else
     io_idle = 0;
@@ -1019,6 +1035,12 @@ run(void *arg) {
   req_sent = resp_seen = nack_seen = ev_seen = handler_calls = reentry_sends = 0;
   pend_async = NULL;
   io_idle = 0;
+  io_deadline = 0;
+  post_advanced = 0;
+  tearing_down = 0;
+  ping_seen = pong_seen = callout_seen = reentry_returns = raw_rst_sent = raw_pong_sent = 0;
+  dead = rawc = tcps = NULL;
+  tcp_stream = NULL;
   preemptions = 0;
   violations_reported = 0;
   armed = 0;
@@ -1043,6 +1065,9 @@ run(void *arg) {
   armed = 0;
   vx_observe("end: requests=%d responses=%d nacks=%d events=%d handler_calls=%d preemptions=%d", req_sent, resp_seen, nack_seen, ev_seen,
              handler_calls, preemptions);
+  if (C->flags & F_CBX)
+    vx_observe("end: pings=%d pongs=%d other-call-outs=%d re-entries-returned=%d raw-rst=%d raw-pong=%d", ping_seen, pong_seen, callout_seen,
+               reentry_returns, raw_rst_sent, raw_pong_sent);
   if (lock_owner != -1) {
     char sig[100];
     snprintf(sig, sizeof sig, "lock-leak:held-at-end:after-callback:%s", last_callback);
@@ -1058,9 +1083,18 @@ run(void *arg) {
   }
 #endif
   /* (requests answered is reported in the outcome histogram; it is not a verdict: the I/O thread's loop has a fixed horizon) */
-  vx_outcome("req=%d resp=%d nack=%d", req_sent, resp_seen, nack_seen);
+  if (C->flags & F_CBX)
+    vx_outcome("req=%d resp=%d nack=%d ping=%d pong=%d callouts=%d", req_sent, resp_seen, nack_seen, ping_seen, pong_seen, callout_seen);
+  else
+    vx_outcome("req=%d resp=%d nack=%d", req_sent, resp_seen, nack_seen);
+  tearing_down = 1; /* the callbacks that run from here on (session / context release) must not touch the objects being released */
   coap_session_release(cs);
-  coap_session_release(dead);
+  if (dead)
+    coap_session_release(dead);
+  if (rawc)
+    coap_session_release(rawc);
+  if (tcps)
+    coap_session_release(tcps);
   for (int w = 0; w < MAXT; w++)
     if (extra_sess[w]) {
       coap_session_release(extra_sess[w]);
@@ -1073,6 +1107,7 @@ run(void *arg) {
 
 static struct cfg *cfgs;
 static int ncfgs;
+static int add_flags; /* flags given to the scenarios added next */
 static void
 add(int nw, int a0, int a1, int b0, int b1, int c0, int c1, int bound) {
   struct cfg c;
@@ -1085,11 +1120,16 @@ add(int nw, int a0, int a1, int b0, int b1, int c0, int c1, int bound) {
   c.ops[2][0] = c0;
   c.ops[2][1] = c1;
   c.bound = bound;
+  c.flags = add_flags;
   char d[3][40];
   for (int w = 0; w < 3; w++)
     snprintf(d[w], sizeof d[w], "%s%s%s", c.ops[w][0] >= 0 ? op_names[c.ops[w][0]] : "-", c.ops[w][1] >= 0 ? "+" : "",
              c.ops[w][1] >= 0 ? op_names[c.ops[w][1]] : "");
-  snprintf(c.name, sizeof c.name, "c13:w=%d:%s|%s|%s:B=%d", nw, d[0], d[1], nw > 2 ? d[2] : "-", bound);
+  if (add_flags)
+    snprintf(c.name, sizeof c.name, "c13x:%s%s:w=%d:%s|%s|%s:B=%d", add_flags & F_TCP ? "udp+tcp" : "udp", add_flags & F_PERSIST ? "+persist" : "", nw,
+             d[0], d[1], nw > 2 ? d[2] : "-", bound);
+  else
+    snprintf(c.name, sizeof c.name, "c13:w=%d:%s|%s|%s:B=%d", nw, d[0], d[1], nw > 2 ? d[2] : "-", bound);
   cfgs = realloc(cfgs, sizeof *cfgs * (size_t)(ncfgs + 1));
   cfgs[ncfgs++] = c;
 }
@@ -1136,20 +1176,84 @@ main(int argc, char **argv) {
     add(3, OP_RESOURCE, -1, OP_CACHE, -1, OP_ASYNC_TRIGGER, -1, 2);
     add(3, OP_NOTIFY, OP_SEND, OP_REF, -1, OP_SEND, -1, 2);
   }
-  vx_ev_rule("real pthreads (I/O thread in coap_io_process + 2-3 API threads, 1-2 public API calls each from the menu send / notify / "
-             "session create+release / resource add+delete / cache / reference+release / send to a dead peer (give-up => NACK callback) / "
-             "async trigger / request from a new local address (=> SERVER_SESSION_NEW event callback, lock held, in the I/O thread); request, response, NACK and event callbacks re-enter the public API) under a cooperative scheduler with "
-             "scheduling points at every operation on libcoap's global lock, inside every application callback, the blocking epoll_wait, thread start/exit; all schedules with "
-             "<= bound preemptions; non-trivial = at least one preemption; distinct = distinct observation logs");
+  /* "c13x:" family: the other call-outs, with their own preemption bound */
+  int BX = T_ ? 2 : 1;
+  add_flags = F_CBX;
+  add(2, OP_SLEEP, OP_REF, OP_SEND, -1, -1, -1, BX);      /* keep-alive: ping (server side) + pong (own endpoint, raw peer) */
+  add(2, OP_RAW_PING, -1, OP_SEND, -1, -1, -1, BX);       /* pings from the raw peer to server endpoint and client socket */
+  add(2, OP_SEND_PING, -1, OP_SEND, -1, -1, -1, BX);      /* application ping: ping handler, RST => NACK callback */
+  add(2, OP_CACHE_APP, OP_SLEEP, OP_REF, -1, -1, -1, BX); /* cache entry idles out in the I/O thread */
+  add(2, OP_RESOURCE_UD, -1, OP_NOTIFY, -1, -1, -1, BX);  /* user-data release in the API thread */
+  add(2, OP_SEND_LARGE, -1, OP_SEND, -1, -1, -1, BX);     /* large-data release in the API thread */
+  if (T_) {
+    add(2, OP_SLEEP, OP_SEND, OP_NOTIFY, -1, -1, -1, BX);
+    add(2, OP_RAW_PING, OP_SLEEP, OP_REF, -1, -1, -1, BX);
+    add(2, OP_CACHE_APP, OP_SLEEP, OP_SEND, -1, -1, -1, BX); /* (no second cache-app / sleep in the other thread: see assumption) */
+    add(2, OP_RESOURCE_UD, -1, OP_RESOURCE_UD, -1, -1, -1, BX);
+    add(2, OP_SEND_LARGE, OP_SLEEP, OP_RESOURCE_UD, -1, -1, -1, BX);
+    add(3, OP_SLEEP, -1, OP_SEND, -1, OP_RAW_PING, -1, 1);
+  }
+  add_flags = F_CBX | F_TCP;
+  add(2, OP_SLEEP, OP_REF, OP_SEND, -1, -1, -1, BX);            /* + 7.02 keep-alive => 7.03 => pong handler */
+  add(2, OP_RAW_PING, -1, OP_REF, -1, -1, -1, BX);              /* + 7.02 from the peer => ping handler */
+  add(2, OP_SEND_PING, -1, OP_SEND, -1, -1, -1, BX);
+  add_flags = F_CBX | F_PERSIST;
+  add(2, OP_OBSERVE, -1, OP_REF, -1, -1, -1, BX);               /* observe-added */
+  add(2, OP_NOTIFY, -1, OP_REF, -1, -1, -1, BX);                /* track-observe-value */
+  add(2, OP_DEREGISTER, -1, OP_REF, -1, -1, -1, BX);            /* observe-deleted */
+  add(2, OP_RESOURCE_UD, -1, OP_REF, -1, -1, -1, BX);           /* resource-deleted */
+  add_flags = 0;
+  int nx = 0;
+  for (int i = 0; i < ncfgs; i++)
+    nx += cfgs[i].flags != 0;
+  vx_ev_int("scenarios_api_menu_family", ncfgs - nx);
+  vx_ev_int("scenarios_callout_family", nx);
+  vx_ev_int("callout_family_bound", BX);
+  vx_ev_rule("real pthreads (I/O thread in coap_io_process + 2-3 API threads, 1-2 public API calls each) under a cooperative scheduler with "
+             "scheduling points at every operation on libcoap's global lock, inside every application callback, the blocking epoll_wait, thread "
+             "start/exit; all schedules with <= bound preemptions (switching away from a thread that returns from a blocking call - lock wait, "
+             "epoll_wait, sleep - is free); non-trivial = at least one preemption; distinct = distinct observation logs. "
+             "Family c13: (bound 2, 3 for six pairs in thorough; 1-2 for the two-op and three-thread scenarios): menu send / notify / session "
+             "create+release / resource add+delete / cache / reference+release / send to a dead peer (give-up => NACK callback) / async trigger / "
+             "request from a new local address (=> SERVER_SESSION_NEW event callback, lock held, in the I/O thread); request and response "
+             "callbacks re-enter lock-taking public API, NACK and event callbacks call getters. "
+             "Family c13x: (own bound: 1 quick, 2 thorough; thorough adds five more op combinations and one scenario with three API threads at "
+             "bound 1; keep-alive 2 s on, ping + pong + resource-user-data-release handlers registered, "
+             "one more UDP client session to a raw peer that answers an empty CON with RST; every callback incl. NACK and event pins, "
+             "reads and unpins the session it is called for = two lock-taking public API calls from inside): menu sleep 2.1 s (virtual time "
+             "passes while the API threads are alive: the I/O thread's epoll_wait times out, it sends the keep-alive pings: empty CON to its "
+             "own server endpoint => ping handler + RST => pong handler, empty CON to the raw peer => RST => pong handler) / empty CONs from "
+             "the raw peer to the server endpoint and to the client session's socket (=> ping handler on a new server session and on a "
+             "client session) / coap_session_send_ping by an API thread (=> RST => NACK callback) / cache entry with app data and 1 s idle "
+             "timeout (=> app-data free call-out from coap_expire_cache_entries in the I/O thread) / resource with user data add+delete (=> "
+             "release call-out in the API thread) / coap_add_data_large_request with a release function (=> call-out in the API thread) / "
+             "send / notify / reference+release; udp+tcp scenarios add a CoAP-over-TCP client session to a raw stream peer (CSM "
+             "exchanged in set-up): keep-alive and application 7.02 Ping => 7.03 Pong => pong handler, 7.02 from the peer => ping handler; "
+             "+persist scenarios register coap_persist_track_funcs call-outs after set-up: new observation (observe-added), notify "
+             "(track-observe-value), GET Observe=1 (observe-deleted), resource delete (resource-deleted)");
   vx_ev_assumption("library configuration = coap_config.h/coap_defines.h emitted by the repository's CMake configure step on the current tree; built -DNDEBUG like the shipped RelWithDebInfo build");
   vx_ev_assumption("sequential consistency; scheduling points only at lock operations and I/O waits (unsynchronised accesses are the business of the separate TSan pass)");
-  vx_ev_assumption("ping/pong callbacks (TCP only) are not driven");
+  vx_ev_assumption("virtual time moves only when an API thread sleeps (2.1 s at once) and, after all API threads have finished, by the I/O "
+                   "thread's own epoll timeouts (c13x: at most 1.5 s in total, so the keep-alive does not fire again once the I/O thread is alone)");
+  vx_ev_assumption("call-outs not driven: DTLS/TLS (PSK/PKI/SNI/CN validation) callbacks, lg_xmit release after a multi-block transfer, "
+                   "dyn-resource-added (persist), KEEPALIVE_FAILURE event (two unanswered keep-alive periods), WebSocket sessions; a cache entry with idle timeout is "
+                   "given its app data by the thread that created it before any thread sleeps (coap_cache_set_app_data is an unlocked "
+                   "setter on a pointer the I/O thread may expire: an application-level race the property does not cover)");
+  vx_ev_assumption("raw peers have zero latency: the RST / CSM / Pong is in flight as soon as the I/O thread picks up the ping (UDP) resp. as soon as libcoap writes it (TCP)");
   for (int i = 0; i < ncfgs; i++)
     if (vx_replay_if_match(cfgs[i].name, run, &cfgs[i]))
       return 0;
   if (vx_replay_path()) {
     fprintf(stderr, "replay file does not match any scenario\n");
     return 2;
+  }
+  if (getenv("C13_ONLY")) { /* development aid: explore only the scenarios whose name contains the given text */
+    int k = 0;
+    for (int i = 0; i < ncfgs; i++)
+      if (strstr(cfgs[i].name, getenv("C13_ONLY")))
+        cfgs[k++] = cfgs[i];
+    ncfgs = k;
+    vx_ev_str("scenario_filter", getenv("C13_ONLY"));
   }
   struct vx_config *vcs = calloc((size_t)ncfgs, sizeof *vcs);
   void **args = calloc((size_t)ncfgs, sizeof *args);
